@@ -526,8 +526,8 @@ def classify_delta(probs: list[dict], texts: dict[str, str] | None = None) -> st
 def real_runs(ctx: Ctx) -> None:
     t0 = time.time()
     cases = corpus.corpus_cases(ctx.rng)
-    ncorp = ctx.pick(200, len(cases))
-    ntext = ctx.pick(50, 300)
+    ncorp = ctx.pick(170, len(cases))
+    ntext = ctx.pick(40, 300)
     progs = cases[:ncorp] + corpus.gen_text_programs(ctx.rng, ntext)
     nvar = ctx.pick(4, 6)
     nproc = 6
